@@ -87,7 +87,10 @@ func GenFlow(r *Rng) string {
 
 // GenJunkFlow produces near-miss mutations of valid rules and arbitrary bytes.
 func GenJunkFlow(r *Rng) string {
-	switch r.Intn(8) {
+	switch r.Intn(9) {
+	case 8: // cut after a whole token (a description that simply ends early)
+		t := strings.Fields(GenFlow(r))
+		return strings.Join(t[:r.Intn(len(t)+1)], " ")
 	case 0:
 		return string(r.Bytes(r.Intn(40)))
 	case 1:
